@@ -35,17 +35,18 @@ pub fn any_pre_of(p: BPos) -> (Pre, Game) {
     let mut g = pos::game_of(&p);
     g.halfmove_clock = clock;
     g.plies = plies;
-    // one earlier entry with arbitrary content; capacity reserved so that pushes never reallocate
-    // (Vec growth is std's business and only inflates the formula)
-    g.history.push(History {
-        mv: { let w: u16 = kani::any(); if w == 0 { None } else { Some(move_of(w)) } },
-        captured: None,
-        castle_rights: ByPlayer::new(CastleRights { king_side: kani::any(), queen_side: kani::any() }, CastleRights { king_side: kani::any(), queen_side: kani::any() }),
-        en_passant_target: None,
-        halfmove_clock: kani::any(),
-        zobrist: ZobristHash(kani::any()),
-        incremental_eval: IncrementalEvalFields { phase_value: kani::any(), piece_square_tables: PhasedEval::ZERO },
-    });
+    // one earlier entry, created by the engine's own code (a null move from an arbitrary carried key / clock / ep state would change the
+    // position, so the entry is pushed on a scratch copy and moved over): no struct literal of History here, so that a refactoring of
+    // History's fields does not stop every step harness from building
+    {
+        let mut scratch = pos::game_of(&p);
+        scratch.zobrist = ZobristHash(kani::any());
+        scratch.halfmove_clock = kani::any();
+        scratch.make_null_move();
+        let e = scratch.history.pop().unwrap();
+        g.history.push(e);
+        std::mem::forget(scratch);
+    }
     (Pre { p, clock, plies, hist_len: 1 }, g)
 }
 
